@@ -4,6 +4,19 @@ A spec holds the caller's data frames *explicitly* (column keys, column order, i
 row), so that check() rebuilds the very same pandas frames and the oracle can be computed from the
 plain rows without touching chi or pandas. The figure is inspected through the plotly trace objects
 (`fig._fig.data`): only the traces added by the call under inspection are looked at.
+
+Interpretation decisions (demand only what the property / docstrings state):
+* NaN rows: no docstring says whether a measurement with a NaN time or value is kept; both accepted.
+* Individuals without a row of the chosen observable (also when they have dose rows): absent or empty.
+* Band limits: validity predicate only. A mutant that widens a band (lower limit = smallest sample) is
+  admissible under the property and survives by design (tools/mut_c20.py M12).
+* Order of the sample times inside the polygon, order/colour of the bands, duplicated bulk probabilities:
+  not stated by the property, not demanded (chi draws a self-crossing polygon for unsorted sample times,
+  a polygon with 4T y-values for a repeated probability, and orders bands by the *string* of p).
+* PKPredictivePlot.add_prediction(bulk_probs=None): the sample scatter has to sit in the panel whose y-axis
+  is titled with the observable key (own clause `pk_pred.pred_scatter_panel`, so it buckets separately).
+Corrected errors of this harness (false alarms): bulk probabilities nudged out of (0,1) by gen.distinct;
+an empty prediction frame for ResidualPlot when every measurement of the observable had a NaN time.
 """
 import math
 import random
